@@ -120,6 +120,12 @@ fn gen_sampled_session(rng: &mut Rng) -> SenderScn {
         let mut o = ObjectSpec::basic(len, rng.next_u64(), i);
         o.oti = Some(oti);
         o.max_transfer_count = *rng.pick(&[1u32, 1, 2, 3]);
+        if rng.chance(0.2) {
+            o.cenc = *rng.pick(&[CencSpec::Zlib, CencSpec::Deflate, CencSpec::Gzip]);
+            o.inband_cenc = rng.chance(0.5);
+            o.kind = *rng.pick(&[ContentKind::Text, ContentKind::Random]);
+        }
+        o.md5 = rng.chance(0.8);
         objects.push(o);
     }
     let mut ops = Vec::new();
